@@ -35,6 +35,10 @@ def programs(ctx):
     for n in (0, 1, 2, 32, 33, 64, 65, 100):      # serde serializes arrays up to length 32 only: longer ones have no values
         add({"k": "arr", "t": P("u8"), "n": n}, 1 if n <= 32 else 0)
         add({"k": "arr", "t": OPT(N("U1")), "n": n}, 1 if n <= 32 else 0)
+        if n >= 32:      # the same arrays reached through containers that forward inline() to their element
+            add(VEC({"k": "arr", "t": P("u8"), "n": n}), 0)
+            add(OPT({"k": "arr", "t": P("i64"), "n": n}), 0)
+            add({"k": "wrap", "w": "box", "t": {"k": "arr", "t": P("bool"), "n": n}}, 0)
     for ar in range(1, 11):
         add({"k": "tuple", "ts": [rng.choice([P("u8"), P("String"), N("U1"), OPT(P("i64")), N("U2")]) for _ in range(ar)]}, 1)
     for w in WRAPS:
@@ -147,6 +151,30 @@ def run(ctx):
                     continue
                 qs.append({"op": "oracle_member", "decls": udecls, "ty": r["name"]["ok"], "json": jt})
                 meta.append((pr, v))
+                if "ok" in r.get("inline", {}) and r["inline"]["ok"] != r["name"]["ok"]:
+                    qs.append({"op": "oracle_member", "decls": udecls, "ty": r["inline"]["ok"], "json": jt})
+                    meta.append((pr, v))
+    # arrays: serde writes `[T; N]` as a tuple of exactly N elements (natively up to 32, through serialize_tuple beyond), so up to
+    # ARRAY_TUPLE_LIMIT both name() and inline() must accept N elements and reject N-1 / N+1, however the array is reached
+    aq, ameta = [], []
+    for pr, r in zip(progs[0]["probes"], real[0]):
+        n = arr_len(pr["ty"])
+        if n is None:
+            continue
+        for which in ("name", "inline"):
+            if "ok" not in r.get(which, {}):
+                continue
+            for m in ([n] if n > LIMIT else [n - 1, n, n + 1]):
+                if m < 0:
+                    continue
+                aq.append({"op": "oracle_member", "decls": udecls, "ty": r[which]["ok"], "json": json.dumps(synth(pr["ty"], m))})
+                ameta.append((pr, which, n, m))
+    for q, (pr, which, n, m), o in zip(aq, ameta, (vlib.run_model(aq) if aq else []) or []):
+        if "ok" not in o:
+            ctx.broken.append(f"oracle cannot read the implementation's type text: {json.dumps(o)[:200]}")
+        elif o["ok"] is not (m == n):
+            ctx.violation(f"{which}() of an array type of length {n} {'rejects' if m == n else 'accepts'} a sequence of {m} elements",
+                          {"type": pr["ty"], "presentation": which, "elements": m}, {"ts_type": q["ty"][:400]})
     res = vlib.run_model(qs) if qs else []
     fails = 0
     for q, (pr, v), o in zip(qs, meta, res or []):
@@ -185,6 +213,35 @@ def run(ctx):
                         "their crates are not compiled in this stream", "usize/isize are specified as `number` (what ts-rs documents), although they are 64-bit on this target"]
     vlib.settle(ctx)
     return ctx.finish(proof=proof)
+
+
+LIMIT = 64     # ARRAY_TUPLE_LIMIT (Props/C12 reads the constant from the source; the compiled correspondence ties the model to it)
+
+
+def arr_len(t):
+    """length of the (single) array inside a library type expression built from arr / vec / option / wrap, else None"""
+    k = t["k"]
+    if k == "arr":
+        e = t["t"]
+        return t["n"] if (e["k"] == "prim" and e["r"] in ("u8", "i64", "bool")) or (e["k"] == "option" and e["t"]["k"] == "named") else None
+    if k in ("vec", "option", "wrap") and isinstance(t.get("t"), dict):
+        return arr_len(t["t"])
+    return None
+
+
+def synth(t, m):
+    k = t["k"]
+    if k == "arr":
+        return [synth(t["t"], m) for _ in range(m)]
+    if k == "vec":
+        return [synth(t["t"], m)]
+    if k == "option":
+        return synth(t["t"], m) if arr_len(t) is not None else None
+    if k == "wrap":
+        return synth(t["t"], m)
+    if k == "prim":
+        return True if t["r"] == "bool" else 0
+    return None
 
 
 def arg_names(t):
